@@ -107,6 +107,7 @@ func TestReplay(t *testing.T) {
 	}
 	c, err := LoadCase(path)
 	if err != nil {
+		fmt.Printf("REPLAY-LOAD-ERROR file=%s: %v\n", path, err)
 		t.Fatalf("load %s: %v", path, err)
 	}
 	id := c.Prop
